@@ -489,6 +489,16 @@ func (s *Scope) evalQuant(e *Expr) *Val {
 	return scalar(raw(fmt.Sprintf("(%s ((%s %s)) (! %s%s))", e.Op, name, sortName, body.S, pats), SBool), types.Typ[types.Bool])
 }
 
+func resultTypeOfSig(sig *types.Signature) types.Type {
+	switch sig.Results().Len() {
+	case 0:
+		return nil
+	case 1:
+		return sig.Results().At(0).Type()
+	}
+	return sig.Results()
+}
+
 // mentionsDef: the term contains a define-fun name (which the solver expands, possibly into
 // connectives that are not allowed in patterns).
 func (c *Ctx) mentionsDef(t string) bool {
@@ -910,6 +920,29 @@ func (s *Scope) evalCall(e *Expr) *Val {
 		}
 		// spec functions may also see the caller's heap and ghosts, not its locals
 		return n.eval(sf.Body)
+	}
+	// pure accessor of an external interface, written f(x) or x.f() -> call with receiver first
+	if len(e.Args) >= 1 {
+		if recv := s.eval(e.Args[0]); recv != nil && recv.Ty != nil {
+			key := shortTypeName(recv.Ty) + "." + e.Name
+			if c.W.externPure[key] {
+				var rest []*Val
+				for i := 1; i < len(e.Args); i++ {
+					rest = append(rest, argv(i))
+				}
+				var rt types.Type
+				if it, ok := recv.Ty.Underlying().(*types.Interface); ok {
+					for i := 0; i < it.NumMethods(); i++ {
+						if it.Method(i).Name() == e.Name {
+							rt = resultTypeOfSig(it.Method(i).Type().(*types.Signature))
+						}
+					}
+				}
+				if r := c.pureExtern(key, recv, rest, rt); r != nil {
+					return r
+				}
+			}
+		}
 	}
 	// pure Go function or method of the package under contract
 	if os.Getenv("GOCV_DEBUG") != "" {
